@@ -316,7 +316,7 @@ def command_for(b, inp, d):
 
 
 CPU_LIMIT_SMALL, CPU_LIMIT_BIG = 10, 10     # seconds of CPU time; the confirming run gets twice that (normal: 0.03 s)
-HANG_SAMPLE_AT = (0.3, 0.5, 0.7, 0.9, 1.1, 1.3, 1.6, 1.9)   # CPU seconds at which a confirmed hang is sampled (re-runs) for its signature
+HANG_SAMPLE_AT = (0.25, 0.4, 0.55, 0.7, 0.85, 1.0, 1.15, 1.3, 1.45, 1.6, 1.8, 2.0)   # CPU seconds at which a confirmed hang is sampled (re-runs) for its signature
 WALL_BACKUP = 25                            # x cpu limit: wall-clock backstop (blocked child / overloaded host)
 
 
